@@ -53,8 +53,11 @@ PCT = st.integers(1, 99)
 
 @st.composite
 def param_sets(draw):
-    return dict(seed=draw(st.one_of(st.integers(0, 50), st.integers(0, 10 ** 12))), width=draw(st.integers(1, 3)),
-                length=draw(st.integers(1, 3)), max_reward=draw(st.sampled_from((1, 6, 60, 1000))), rb=draw(PCT),
+    dims = draw(st.sampled_from(((1, 1), (1, 2), (2, 1), (2, 3), (3, 2), (3, 3), (1, 9), (10, 1), (1, 11), (12, 2), (2, 12),
+                                 (1, 25), (100, 1), (1, 101), (10, 10), (11, 12))))
+    return dict(seed=draw(st.one_of(st.integers(0, 50), st.integers(0, 10 ** 12), st.sampled_from((2 ** 31, 2 ** 32, 2 ** 63, 2 ** 64 + 1, 10 ** 18)))),
+                width=dims[0], length=dims[1],
+                max_reward=draw(st.sampled_from((1, 6, 9, 10, 60, 99, 100, 1000, 1023, 10 ** 6))), rb=draw(PCT),
                 lb=draw(PCT), tb=draw(PCT), lt=draw(PCT), force_down=draw(st.booleans()))
 
 
